@@ -69,8 +69,9 @@ CONFIGS: Dict[str, Dict[str, List[Dict[str, Any]]]] = {
         ],
     },
     "Sudoku": {
-        "quick": [_c("default"), _c("veryeasy", gen="very-easy")],
-        "thorough": [_c("default"), _c("veryeasy", gen="very-easy"), _c("dummy", gen="dummy"), _c("tiny3", gen="tiny", n=3)],
+        "quick": [_c("default"), _c("veryeasy", gen="very-easy"), _c("tiny5u8", gen="tiny", n=5, db_dtype="uint8")],
+        "thorough": [_c("default"), _c("veryeasy", gen="very-easy"), _c("dummy", gen="dummy"), _c("tiny3", gen="tiny", n=3),
+                     _c("tiny5u8", gen="tiny", n=5, db_dtype="uint8"), _c("tiny4i64", gen="tiny", n=4, db_dtype="int64")],
     },
     "BinPack": {
         "quick": [_c("default"), _c("r10e12o5", gen="random", max_items=10, max_ems=12, split_same=2, obs_num_ems=5, debug=True)],
@@ -116,12 +117,12 @@ CONFIGS: Dict[str, Dict[str, List[Dict[str, Any]]]] = {
         ],
     },
     "Cleaner": {
-        "quick": [_c("default"), _c("r5c11a2L7", rows=5, cols=11, agents=2, time_limit=7)],
+        "quick": [_c("default"), _c("r5c11a2L7", rows=5, cols=11, agents=2, time_limit=7), _c("r4c7a1", rows=4, cols=7, agents=1), _c("r7c4a2", rows=7, cols=4, agents=2)],
         "thorough": [
             _c("default"), _c("r5c5a1", rows=5, cols=5, agents=1), _c("r5c11a2L7", rows=5, cols=11, agents=2, time_limit=7),
             _c("r11c5a3p0", rows=11, cols=5, agents=3, penalty=0.0), _c("r3c3a4L3", rows=3, cols=3, agents=4, time_limit=3),
             _c("r7c9a2L2", rows=7, cols=9, agents=2, time_limit=2), _c("r9c7a2L1", rows=9, cols=7, agents=2, time_limit=1),
-            _c("r5c11a2", rows=5, cols=11, agents=2),
+            _c("r5c11a2", rows=5, cols=11, agents=2), _c("r4c7a1", rows=4, cols=7, agents=1), _c("r7c4a2", rows=7, cols=4, agents=2),
         ],
     },
     "Connector": {
@@ -155,10 +156,11 @@ CONFIGS: Dict[str, Dict[str, List[Dict[str, Any]]]] = {
         ],
     },
     "Maze": {
-        "quick": [_c("default"), _c("r5c9L7", rows=5, cols=9, time_limit=7)],
+        "quick": [_c("default"), _c("r5c9L7", rows=5, cols=9, time_limit=7), _c("r4c7", rows=4, cols=7), _c("r7c4", rows=7, cols=4)],
         "thorough": [
             _c("default"), _c("r3c3", rows=3, cols=3), _c("r5c9L7", rows=5, cols=9, time_limit=7), _c("r9c4L3", rows=9, cols=4, time_limit=3),
             _c("toy", gen="toy"), _c("r5c9", rows=5, cols=9), _c("r7c6L2", rows=7, cols=6, time_limit=2), _c("r6c7L1", rows=6, cols=7, time_limit=1),
+            _c("r4c7", rows=4, cols=7), _c("r7c4", rows=7, cols=4),
         ],
     },
     "MMST": {
@@ -194,10 +196,11 @@ CONFIGS: Dict[str, Dict[str, List[Dict[str, Any]]]] = {
         ],
     },
     "Snake": {
-        "quick": [_c("default"), _c("r3c5L7", rows=3, cols=5, time_limit=7)],
+        "quick": [_c("default"), _c("r3c5L7", rows=3, cols=5, time_limit=7), _c("r3c4L60", rows=3, cols=4, time_limit=60)],
         "thorough": [
             _c("default"), _c("r2c2L3", rows=2, cols=2, time_limit=3), _c("r3c5L7", rows=3, cols=5, time_limit=7),
             _c("r6c4L200", rows=6, cols=4, time_limit=200), _c("r4c6L2", rows=4, cols=6, time_limit=2), _c("r5c3L1", rows=5, cols=3, time_limit=1),
+            _c("r3c4L60", rows=3, cols=4, time_limit=60),
         ],
     },
     "Sokoban": {
@@ -288,6 +291,8 @@ def build(env: str, cfg: Dict[str, Any]):
         db = np.load(path)
         if g == "tiny":
             db = db[: c["n"]]
+        if "db_dtype" in c:  # a user database in another integer dtype (the shipped files are int8)
+            return E.Sudoku(DatabaseGenerator(database=np.asarray(db).astype(c["db_dtype"])))
         return E.Sudoku(DatabaseGenerator(database=jnp.asarray(db)))
     if env == "BinPack":
         from jumanji.environments.packing.bin_pack import generator as bg
